@@ -5,8 +5,8 @@ L1  MC_Struct: the layout is a function of the text (C09_LayoutDeterministic); i
     (the design sensitivity that makes the property non-trivial); Session.tla: the observation of a
     call does not depend on the calls before it.
 L2  the same model texts (TLC's schedule-sensitive witnesses, a structural sample, the repository's
-    models) are generated in fresh processes under different PYTHONHASHSEED values: every output
-    must be byte-identical; call histories generated from Session.tla are replayed in one process.
+    models) are generated in fresh processes under different PYTHONHASHSEED values, each process taking
+    the texts in its own order (they share assignment names): every output must be byte-identical; call histories generated from Session.tla are replayed in one process.
 L3  the hook trace of each process gives the order in which dependency sets reach the sorter; when
     that order varies between processes, MC_Sched.tla decides on the recorded dependency structure
     whether some iteration order changes the layout (so detection does not depend on luck).
@@ -160,7 +160,7 @@ def main(chk: core.Check, replay):
                               {"model": by_id[mid]["text"], "seed_a": ref_seed, "seed_b": s,
                                "differs": {k: [ref.get(k), cur.get(k)] for k in diff if k.endswith('index') or k == 'components'},
                                "fields": diff},
-                              f"PYTHONHASHSEED={ref_seed} and {s} give different {diff} for the same model text")
+                              f"the processes with PYTHONHASHSEED={ref_seed} and {s} (each handling the models in its own order) give different {diff} for the same model text")
             if cur.get("iters") != ref.get("iters"):
                 varied_iters.append(mid)
     varied_iters = sorted(set(varied_iters))
